@@ -1505,13 +1505,37 @@ def make_check_C11(tier):
                                                             return_edges=False))
     for where in ("tail-mid", "tail-start", "entry2-mid"):
         chk.add("uuid-swap/shared-tail/%s" % where, h_uuid_swap, params=dict(where=where))
+    # hash-seed / UUID clause: iteration order of hash-ordered collections as an explored choice (harness/order.py)
+    from harness import order as OR
+    pool = [(sid, spec) for sid, spec in rewrite_shapes.shapes(tier) + rewrite_shapes.cfi_shapes(tier) + extra
+            if not crash_pattern(spec) and not sid.startswith(("syspairs/", "pe/syspairs/"))]
+    stride = 5 if tier == "quick" else 1
+    picked = [x for i, x in enumerate(pool) if i % stride == 0 or x[0].startswith(("newfunc/", "callgraph2/", "two-entries/"))]
+    for sid, spec in picked:
+        chk.add("order/%s" % sid, OR.h_order, params=dict(spec=spec), timeout=1800)
+    for abiname in ("x64-elf", "x64-pe", "ia32-pe", "arm64", "mips32"):
+        cl = {"x64-elf": ["rax", "r11", "rbx"], "x64-pe": ["rax", "r11", "rbx"], "ia32-pe": ["eax", "ebx", "edx"],
+              "arm64": ["x0", "x9", "x20"], "mips32": ["t0", "s1", "v0"]}[abiname]
+        for preserve in (False, True):
+            for nscratch in (0, 2):
+                chk.add("order-abi/%s/preserve%d/scratch%d" % (abiname, preserve, nscratch), OR.h_order_abi,
+                        params=dict(abiname=abiname, preserve=preserve, nscratch=nscratch, clobbers=cl,
+                                    reads=[{"x64-elf": "rcx", "x64-pe": "rcx", "ia32-pe": "ecx", "arm64": "x1", "mips32": "t1"}[abiname]],
+                                    flags=True, align=abiname != "mips32"))
+    for isa, fmt in (("x64", "elf"), ("x64", "pe"), ("arm64", "elf"), ("ia32", "pe")):
+        chk.add("order-callpatch/%s-%s" % (isa, fmt), OR.h_order_callpatch, params=dict(isa=isa, fmt=fmt))
     chk.bounds = dict(BOUNDS)
     chk.bounds["UUID values"] = ("only for the shared-tail layout: two copies of one module whose two function UUIDs are swapped in "
                                  "magnitude (same table order); everything else about UUID draws is outside the claim")
     chk.bounds["retarget requests"] = "A->B with B->C, and A->B with T->C, registered in both orders (x86-64 ELF PIE and PE)"
     chk.bounds["registration orders"] = "every permutation of the 2-3 requests that keeps the relative order of requests at the same location"
+    chk.bounds["iteration orders"] = (
+        "hash seeds and UUID draws reach the result only through the iteration order of hash-ordered collections; every site in "
+        "gtirb_rewriting that iterates one (for/comprehension/starred/sorted/list/next/min/max..., found by an AST pass over the "
+        "current source) is, one site at a time, presented reversed and (>= 3 elements) rotated by one; sites of a scenario are "
+        "learnt from a tracked run; orders inside gtirb, gtirb_functions, gtirb_layout, mcasm, capstone and networkx are not varied")
     chk.assumptions = list(ASSUME) + [
-        "NOT decided here (outside the claim): independence from PYTHONHASHSEED / set iteration order / UUID draws - the "
-        "engine itself fixes UUIDs and hashes nodes by UUID to make re-execution deterministic",
+        "hash-seed/UUID clause: one iteration site is perturbed per run (not combinations of sites); a dependence that needs two "
+        "sites perturbed together, or an order other than reversed/rotated, is outside the bound",
         "temporary-label names are compared exactly (suffixes follow application order, not registration order)"]
     return chk
